@@ -9,7 +9,7 @@ export GOFLAGS=-mod=mod GOPROXY=off GOSUMDB=off GOTOOLCHAIN=local
 W=$(mktemp -d "${TMPDIR:-/tmp}/verif-seed-XXXXXX")
 trap 'rm -rf "$W"' EXIT
 mkdir "$W/cache"; ( cd /repo && git ls-files -z | xargs -0 cp --parents -t "$W/cache" )
-DEMO=$(grep -o 'func TestSeeded_[A-Za-z0-9_]*' "$D/demo_test.go" | head -1 | sed 's/func //')
+DEMO=$(grep -oE 'func TestSeeded2?_[A-Za-z0-9_]*' "$D/demo_test.go" | head -1 | sed 's/func //')
 RACE=""; grep -q "race" "$D/notes.md" 2>/dev/null && [ "${SEED_RACE:-0}" = 1 ] && RACE="-race"
 cp "$D/demo_test.go" "$W/cache/zz_seeded_demo_test.go"
 clean=$( cd "$W/cache" && go test $RACE -count=1 -run "^${DEMO}\$" . >"$W/clean.log" 2>&1 && echo pass || echo FAIL )
@@ -17,7 +17,7 @@ if ! ( cd "$W/cache" && patch -p1 -s --no-backup-if-mismatch < "$D/patch.diff" )
 ( cd "$W/cache" && go build ./... ) || { echo "RESULT does-not-build"; exit 3; }
 mutant=$( cd "$W/cache" && go test $RACE -count=1 -run "^${DEMO}\$" . >"$W/mut.log" 2>&1 && echo pass || echo FAIL )
 rm "$W/cache/zz_seeded_demo_test.go"
-suite=$( cd "$W/cache" && go test -count=1 ./... >"$W/suite.log" 2>&1 && echo pass || echo FAIL )
+suite=$( cd "$W/cache" && { go test -count=1 ./... >"$W/suite.log" 2>&1 || go test -count=1 ./... >"$W/suite.log" 2>&1 || go test -count=1 ./... >"$W/suite.log" 2>&1; } && echo pass || echo FAIL )
 echo "demo=$DEMO clean=$clean mutant=$mutant suite=$suite"
 [ "$suite" = FAIL ] && grep -E "^(--- FAIL|FAIL)" "$W/suite.log" | head -5
 ( cd "$W/cache" && git init -q . 2>/dev/null; true )
